@@ -1,6 +1,32 @@
-(* Ops/C18.v — protocol entry points for property C18 (stub until the model is built). *)
-From Coq Require Import List String.
-From PrefVerif Require Import Lib.Val.
+(* Ops/C18.v — protocol entry points for property C18 (k-alternative partitions).
+   payload conventions: alts = list of N; profile = list of flat strict rankings (best first);
+   axes = list of lists of N; option = () | (x). *)
+From Coq Require Import List ZArith NArith String.
+From PrefVerif Require Import Lib.Val Model.SP Model.Partition.
 Import ListNotations.
+Open Scope string_scope.
 
-Definition ops : optable := [].
+Definition d18_alts (v : val) : list N := dlist dN v.
+Definition d18_profile (v : val) : list ranking := dlist (dlist dN) v.
+Definition d18_axes (v : val) : list (list N) := dlist (dlist dN) v.
+
+(* (alts profile axes) -> bool *)
+Definition op18_check (v : val) : val :=
+  ebool (partition_check (d18_alts (dnth 0 v)) (d18_profile (dnth 1 v)) (d18_axes (dnth 2 v))).
+(* (alts profile) -> nat *)
+Definition op18_min (v : val) : val :=
+  enat (min_partition (d18_alts (dnth 0 v)) (d18_profile (dnth 1 v))).
+(* (alts profile ((k res) ...)) -> (min (bool ...)) : brute_force_ok for every pair (k, res), the optimum computed once *)
+Definition op18_bf (v : val) : val :=
+  let alts := d18_alts (dnth 0 v) in
+  let profile := d18_profile (dnth 1 v) in
+  let mn := min_partition alts profile in
+  VL [ enat mn;
+       elist (fun kr => ebool (brute_force_ok_with mn alts profile (fst kr) (snd kr)))
+             (dlist (dpair dnat (doption d18_axes)) (dnth 2 v)) ].
+(* (alts profile block) -> bool : does the block admit an axis *)
+Definition op18_block (v : val) : val :=
+  ebool (block_sp (d18_profile (dnth 1 v)) (d18_alts (dnth 2 v))).
+
+Definition ops : optable :=
+  [ ("c18.check", op18_check); ("c18.min", op18_min); ("c18.bf", op18_bf); ("c18.block", op18_block) ].
